@@ -214,6 +214,21 @@ class FuseBatchNormIntoGemm(_FuseBatchNormBase):
             _outputs=["batchnorm_out"],
         )
 
+    def check(self, context, x, inbound_out, batchnorm_out):
+        check_result = super().check(context, x, inbound_out, batchnorm_out)
+        if not check_result:
+            return check_result
+
+        # Gemm computes alpha * A @ B + beta * C. The fused bias replaces C and is kept
+        # under the same beta, so the fusion is only exact when beta is 1.
+        beta = inbound_out.producer().attributes.get("beta")
+        if beta is not None and beta.as_float() != 1.0:
+            return check_result.fail(
+                f"Gemm beta ({beta.as_float()}) is not 1: the fused bias would be scaled by beta."
+            )
+
+        return check_result
+
 
 fuse_batchnorm_into_conv_rule = FuseBatchNormIntoConv().rule()
 fuse_batchnorm_into_conv_transpose_rule = FuseBatchNormIntoConvTranspose().rule()
